@@ -577,7 +577,8 @@ namespace
             };
         };
         auto arr = right.data<d_array>();
-        if (arr->size() > 0)
+        // (code without instructions has nothing to do per element: iterating it would spin inside of one scheduler slice)
+        if (arr->size() > 0 && !left.data<d_code, instruction_set>().empty())
         {
             frame f(runtime.default_value_scope(), left.data<d_code, instruction_set>(), std::make_shared<behavior_foreach_exit>(arr));
             f["_forEachIndex"] = 0;
@@ -1936,8 +1937,12 @@ namespace
         }
 
         float f = right.data<d_scalar, float>();
-        auto duration = std::chrono::duration<float>(f);
-        auto durationCasted = std::chrono::duration_cast<std::chrono::milliseconds>(duration);
+        // The script never resumes before the time asked for: the delay is rounded up to whole milliseconds,
+        // and capped (a year) so that it cannot overflow the wake-up time; NaN and negative delays mean "next round".
+        const float max_seconds = 365.0f * 24 * 60 * 60;
+        if (!(f > 0)) { f = 0; }
+        if (f > max_seconds) { f = max_seconds; }
+        auto durationCasted = std::chrono::milliseconds(static_cast<int64_t>(std::ceil(static_cast<double>(f) * 1000.0)));
 
         runtime.context_active().suspend(durationCasted);
         return {};
@@ -2128,6 +2133,9 @@ namespace
                 {
                     auto context_weak = runtime.context_create();
                     auto lock = context_weak.lock();
+                    // a script started with execVM is scheduled like a spawned one (it may sleep)
+                    lock->can_suspend(true);
+                    lock->weak_error_handling(true);
                     auto scriptdata = std::make_shared<d_script>(context_weak);
                     frame f(runtime.default_value_scope(), res.value());
                     f["_thisScript"] = scriptdata;
